@@ -162,6 +162,23 @@ class Exec:
                 self.ledger.resolver_touched(conflict_region_lines(old))
                 w.raw_git(repo, "add", "--", p)
             res["code"] = 0
+        elif kind == "bulk_notes":
+            # a large pre-existing notes ref (two fan-out levels), built in one fast-import
+            n = op.get("n", 70001)
+            body = "synthetic note %d\n" % op.get("tag", 0)
+            parts = ["blob\nmark :1\ndata %d\n%s\n" % (len(body), body),
+                     "commit refs/notes/ai\ncommitter sim <sim@example.invalid> %d +0000\ndata 0\n" % (w.now_ms // 1000)]
+            tip = w.raw_git(repo, "rev-parse", "--verify", "-q", "refs/notes/ai").out.strip()
+            if tip:
+                parts.append("from %s\n" % tip)
+            ms = []
+            for i in range(n):
+                h = hashlib.sha1(("bulk-%d-%d" % (op.get("tag", 0), i)).encode()).hexdigest()
+                ms.append("M 100644 :1 %s/%s/%s\n" % (h[:2], h[2:4], h[4:]))
+            parts.append("".join(ms))
+            parts.append("\n")
+            r = w.raw_git(repo, "fast-import", "--quiet", stdin="".join(parts).encode())
+            res.update(code=r.code, err=r.err[-300:])
         elif kind == "stage":
             # what `git add -p` produces: an index entry whose content is a chosen subset of hunks
             r = w.raw_git(repo, "hash-object", "-w", "--stdin", stdin=op["content"].encode("utf-8"))
